@@ -318,6 +318,35 @@ FWD_ORDER = ["mj_fwdPosition", "mj_sensorPos", "mj_energyPos", "mj_fwdVelocity",
 INV_ORDER = ["mj_invPosition", "mj_sensorPos", "mj_fwdVelocity", "mj_sensorVel", "mj_invConstraint", "mj_sensorAcc"]
 
 
+WITNESS_SAFE = {"time", "qpos", "qvel", "act", "history", "qacc_warmstart", "ctrl", "qfrc_applied", "xfrc_applied", "mocap_pos",
+                "mocap_quat", "vel", "actuation", "smooth", "cfrc", "qacc", "qfrc_inverse", "sensPos", "sensVel", "sensAcc"}
+
+
+def witness_reads(sc, rng, key, witness, src=0, a=1, b=2):
+    """thorough tier: for each (float-valued) group in the reads of `key`, does junk in that group alone change the stage's
+    determined outputs on this model?  (a witness that the `reads` entry is real; absence proves nothing)"""
+    h = sc.h
+    fp = sc.stages.get(key)
+    if not fp:
+        return
+    cf = sc.fields([g for g in fp["K"] if g not in NEVER_COMPARE])
+    if not cf:
+        return
+    for r in fp["R"]:
+        if r not in WITNESS_SAFE:
+            continue
+        fs = sc.fields([r])
+        if not fs:
+            continue
+        h.ok("copydata %d %d" % (b, src))
+        h.ok("poison %d %d %s" % (b, rng.randrange(1 << 30), " ".join(fs)))
+        if h.cmd("call %d %s" % (b, STAGE_CALL[key])) != "ok":
+            continue
+        d = h.cmd("cmpl %d %d %s" % (a, b, " ".join(c for c in cf if c not in fs)))
+        k = "%s<-%s" % (key, r)
+        witness[k] = witness.get(k, 0) + (1 if d != "=" else 0)
+
+
 def validate_stage(sc, rng, key, src=0, a=1, b=2):
     """V1 + V2 for stage `key` from the data in slot `src`; leaves the advanced data in slot `a`.
     Returns (list of problems, stats)."""
@@ -366,7 +395,7 @@ def validate_stage(sc, rng, key, src=0, a=1, b=2):
     return problems, {"poisoned": len(pf), "compared": len(cf)}
 
 
-def validate_model(sc, rng, nstates=1):
+def validate_model(sc, rng, nstates=1, witness=None):
     """walk the forward pipeline, the integrator and the inverse pipeline of one model; returns problems + counts"""
     h = sc.h
     problems, nst = [], 0
@@ -389,6 +418,8 @@ def validate_model(sc, rng, nstates=1):
         for key in order:
             pr, _ = validate_stage(sc, rng, key)
             nst += 1
+            if witness is not None and not pr:
+                witness_reads(sc, rng, key, witness)
             for p in pr:
                 p["replay"] = {"model": sc.mdl.text(), "commands": h.log[1:][-60:]}
             problems += pr
@@ -649,7 +680,7 @@ def run_models(ctx, info, exe, sf, sig, nmodels, sleep, thorough, stats):
                 dj = json.load(open(os.path.join(GEN_DIR, "DataFields.json")))
                 missing = [f["name"] for f in dj["fields"] if f["name"] not in sc.present]
                 ctx.oblige("harness observes every member of struct mjData_", "correspondence", not missing, str(missing))
-            pr, n = validate_model(sc, rng)
+            pr, n = validate_model(sc, rng, witness=stats.get("witness"))
             stats["stage_validations"] = stats.get("stage_validations", 0) + n
             vprob += pr
             receivers = ("copydata+poison",) if sleeping else RECEIVERS
@@ -694,6 +725,8 @@ def run(ctx):
     info = LeanInfo(drv)
     sig = dj["integration_sig"]
     stats = {"diff": {}}
+    if thorough:
+        stats["witness"] = {}
     vprob, fails = run_models(ctx, info, exe, sf, sig, 160 if thorough else 12, 0.0, thorough, stats)
     v2, f2 = run_models(ctx, info, exe, sf, sig, 60 if thorough else 4, 1.0, thorough, stats)
     vprob += v2
@@ -731,4 +764,20 @@ def run(ctx):
     ctx.extra["probes"] = probes
     ctx.extra["oracle_failures"] = len(fails)
     if thorough:
+        w = stats.get("witness", {})
+        ctx.extra["reads_witnessed"] = {k: v for k, v in sorted(w.items()) if v}
+        ctx.extra["reads_not_witnessed"] = sorted(k for k, v in w.items() if not v)
         ctx.leanchecker(["MjProof.Props.C01"])
+
+    def directed(c):
+        """a proof / tie obligation broke and the sampled oracle found nothing: search harder"""
+        st = {"diff": {}, "coverage_checked": True}
+        vp, fl = run_models(c, info, exe, sf, sig, 40, 0.0, True, st)
+        if fl:
+            f = fl[0]
+            return {"key": failure_key(f), "what": f["what"] + ": " + " ".join(f.get("fields", [])), "replay": f}
+        if vp:
+            p0 = vp[0]
+            return {"key": "c01:footprint:%s:%s" % (p0["stage"], p0["kind"]), "what": "stage %s does not respect its footprint" % p0["stage"], "replay": p0}
+        return None
+    ctx.directed_search = directed
